@@ -6,8 +6,10 @@ package main
 import (
 	"flag"
 	"fmt"
+	"hash/fnv"
 	"os"
 	"strings"
+	"time"
 )
 
 type config struct {
@@ -39,7 +41,51 @@ func safeExec(a *area, cfg *config, op string) (out string) {
 			out = "panic harness:" + strings.ReplaceAll(fmt.Sprint(r), " ", "_")
 		}
 	}()
+	defer ambient(cfg.area, op)()
 	return a.exec(cfg, op)
+}
+
+// ambient gives every case an environment of its own, chosen by a hash of the case (so that a
+// replay meets the same one): the process's time zone and the user's locale are not inputs of any
+// property, and no result may depend on them.
+func ambient(area, op string) (restore func()) {
+	if area == "CL" || area == "CV" {
+		return func() {} // these carry their zone in the case itself (tz=, Z=)
+	}
+	h := fnv.New64a()
+	h.Write([]byte(op))
+	v := h.Sum64()
+	zones := []*time.Location{time.UTC, time.UTC, time.FixedZone("east", 2*3600), time.FixedZone("west", -7*3600),
+		time.FixedZone("half", 5*3600+1800), time.FixedZone("far", 13*3600)}
+	if l, err := time.LoadLocation("Europe/London"); err == nil {
+		zones = append(zones, l) // a zone with daylight saving changes
+	}
+	locales := []string{"", "", "C", "en_US.UTF-8", "en_GB.UTF-8", "de_DE.UTF-8"}
+	oldLocal := time.Local
+	oldLang, hadLang := os.LookupEnv("LANG")
+	oldMeas, hadMeas := os.LookupEnv("LC_MEASUREMENT")
+	time.Local = zones[v%uint64(len(zones))]
+	loc := locales[(v>>8)%uint64(len(locales))]
+	if loc == "" {
+		os.Unsetenv("LANG")
+		os.Unsetenv("LC_MEASUREMENT")
+	} else {
+		os.Setenv("LANG", loc)
+		os.Setenv("LC_MEASUREMENT", loc)
+	}
+	return func() {
+		time.Local = oldLocal
+		if hadLang {
+			os.Setenv("LANG", oldLang)
+		} else {
+			os.Unsetenv("LANG")
+		}
+		if hadMeas {
+			os.Setenv("LC_MEASUREMENT", oldMeas)
+		} else {
+			os.Unsetenv("LC_MEASUREMENT")
+		}
+	}
 }
 
 func runArea(cfg *config, a *area, s *sink) error {
